@@ -733,6 +733,12 @@ def _c18_construct_then_run(**kw):
     with tempfile.TemporaryDirectory() as d, contextlib.redirect_stdout(io.StringIO()), warnings.catch_warnings():
         warnings.simplefilter("ignore")
         st = np.random.get_state()
+        import signal
+
+        def _alarm(signum, frame):
+            raise TimeoutError("run() did not finish within 20 s")
+        old = signal.signal(signal.SIGALRM, _alarm)
+        signal.alarm(20)
         try:
             np.random.seed(1)
             s = tempest.Sampler(lambda u: 8.0 * u - 4.0, like, output_dir=d, **kw)
@@ -742,6 +748,8 @@ def _c18_construct_then_run(**kw):
         except Exception as e:  # noqa
             return stage, f"{type(e).__name__}: {str(e)[:120]}", calls[0]
         finally:
+            signal.alarm(0)
+            signal.signal(signal.SIGALRM, old)
             np.random.set_state(st)
 
 
